@@ -692,9 +692,16 @@ fn build_tracer(ts: &TraceSetup, trace: usize) -> Tracer {
 }
 
 fn new_live(ctx: &Ctx, setup: &Setup) -> Live {
+    // the two options under test travel the application's own way: command line -> build_config -> TrippyConfig
+    // -> make_tui_config (a value lost or altered anywhere on that way shows against the configured one)
+    let mut args = crate::config::base_args();
+    args.tui_privacy_max_ttl = setup.privacy;
+    args.tui_max_addrs = setup.max_addrs;
+    let built = trippy_tui::verif::verif_build_config(args, crate::config::Sections::new().into_file(true), &crate::config::privilege(), crate::config::PID)
+        .expect("build_config accepts the base arguments");
     let cfg = TrippyConfig {
-        tui_privacy_max_ttl: setup.privacy,
-        tui_max_addrs: setup.max_addrs,
+        tui_privacy_max_ttl: built.tui_privacy_max_ttl,
+        tui_max_addrs: built.tui_max_addrs,
         tui_custom_columns: TuiColumns::try_from(setup.columns.as_str()).expect("columns"),
         tui_address_mode: [AddressMode::Ip, AddressMode::Host, AddressMode::Both][usize::from(setup.addr_mode % 3)],
         tui_geoip_mode: [GeoIpMode::Off, GeoIpMode::Short, GeoIpMode::Long, GeoIpMode::Location][usize::from(setup.geoip_mode % 4)],
